@@ -11,6 +11,10 @@
 //	        against an executable sequential specification written from the documentation
 //	        (spec.go, judge.go); one key in three multi-key histories is replayed alone
 //	        (cross-key solo differential);
+//	overlap histories in which slow handlers run beside the history (goroutines of their own,
+//	        virtual sleeps of 1-3 windows), so that a skipped request is taken back after its
+//	        window rolled over and after other requests were counted in the new one; judged by
+//	        the same specification over hit / take-back events in execution order (overlap.go);
 //	sched   2-3 concurrent requests on the injected storage, EVERY schedule (depth-first) over
 //	        the boundaries Storage.Get/Set, MaxFunc, KeyGenerator, handler entry/exit;
 //	walk    3-4 concurrent requests, one seeded random schedule per case.
@@ -44,5 +48,6 @@ func run(e *ev.Env) {
 	corpus(e)
 	e.Cases("sched", e.N(96, 1600), func(c *ev.Case) { runSched(e, c) })
 	e.Cases("walk", e.N(600, 100000), func(c *ev.Case) { runWalk(e, c) })
+	e.Cases("overlap", e.N(2000, 150000), func(c *ev.Case) { runOverlap(e, c) })
 	e.Cases("timed", e.N(3000, 300000), func(c *ev.Case) { runTimed(e, c) })
 }
